@@ -74,15 +74,19 @@ refactor("c15-r-tuple", "C15", SOP,
 refactor("c15-r-early-false", "C15", SCH,
          "        return self.schedule == value.schedule",
          "        if self._schedule != value._schedule:\n            return False\n        return True")
-refactor("c15-r-slots-loop", "C15", OP,
-         """        return (
+_OP_EQ = """        return (
             self.machines == value.machines
             and self.duration == value.duration
             and self.job_id == value.job_id
             and self.position_in_job == value.position_in_job
             and self.operation_id == value.operation_id
-        )""",
-         "        return all(getattr(self, s) == getattr(value, s) for s in self.__slots__)")
+        )"""
+mutant("c15-self-slots-loop", "C15", "R15.a", OP, _OP_EQ,
+       "        return all(getattr(self, s) == getattr(value, s) for s in self.__slots__)",
+       "round-4 seed C15-v1XH: self.__slots__ is the most derived class's, a subclass with its own slots compares nothing of the base")
+refactor("c15-r-class-slots-loop", "C15", OP, _OP_EQ,
+         "        return all(getattr(self, s) == getattr(value, s) for s in Operation.__slots__)",
+         "the explicitly named class's slots: the same five fields for every subclass")
 refactor("c15-r-extra-field", "C15", INST,
          "        return self.jobs == other.jobs", "        return self.jobs == other.jobs and self.name == other.name",
          "stricter equality still distinguishes content")
